@@ -364,6 +364,22 @@ func (p *queryPlan) processClause(ctx context.Context, cls *semantic.GraphClause
 		}
 	}
 
+	if total == 0 {
+		// The clause binds nothing: it only requires a matching triple to exist.
+		// Its matches cannot be kept as rows (a row without bindings is empty), so
+		// fetch them under a scratch alias and look at whether there are any.
+		if cls.Optional {
+			return false, nil
+		}
+		tmpCls := *cls
+		tmpCls.SAlias = "?_match"
+		tbl, err := simpleFetch(ctx, p.grfs, &tmpCls, lo, 0, p.chanSize, p.tracer)
+		if err != nil {
+			return true, err
+		}
+		return tbl.NumRows() == 0, nil
+	}
+
 	if exist == 0 {
 		tracer.V(3).Trace(p.tracer, func() *tracer.Arguments {
 			return &tracer.Arguments{
